@@ -34,6 +34,7 @@
 
 #include <algorithm>
 #include <array>
+#include <map>
 #include <unordered_set>
 
 using namespace nifly;
@@ -659,11 +660,83 @@ static std::vector<std::vector<int>> numberings(int n, int full_n) {
 	return out;
 }
 
+// ---------------------------------------------------------------- boundary: more triangles than 16 bits can count
+// FO4 shapes count triangles in 32 bits.  One shape with 65535 / 65536 / 65537 / 70000 pairwise distinct triangles over 90
+// vertices, two segments (the second with one sub-segment), labels cycling through the three ids: set -> get must keep
+// the triangles as a multiset, give every triangle the label it was set with, and tile [0,T) with the ranges.
+static void run_big_segments(int T, Stats& st) {
+	vf::set_inflight(J::obj().set("kind", "segments-big").set("T", T).dump());
+	st.add("evaluations");
+	st.add("big_shapes");
+	const int NVB = 90;
+	std::vector<Vector3> verts;
+	std::vector<Vector2> uvs;
+	for (int i = 0; i < NVB; i++) { verts.push_back(Vector3((float) (i % 10), (float) (i / 10), (float) (i % 7) * 0.25f)); uvs.push_back(Vector2((float) i / NVB, 1.0f - (float) i / NVB)); }
+	std::vector<Triangle> tris;
+	for (uint16_t a = 0; a < NVB && (int) tris.size() < T; a++)
+		for (uint16_t b = a + 1; b < NVB && (int) tris.size() < T; b++)
+			for (uint16_t c = b + 1; c < NVB && (int) tris.size() < T; c++) tris.push_back(Triangle(a, b, c));
+	if ((int) tris.size() != T) { st.violation("harness:big-mesh", "not enough distinct triangles", J::obj()); return; }
+	J cj = J::obj().set("kind", "segments-big").set("T", T);
+	NifFile nif;
+	nif.Create(NiVersion::getFO4());
+	NiShape* shape = nif.CreateShapeFromData("S", &verts, &tris, &uvs, nullptr);
+	if (!shape) { st.violation("FO4:segments-big:create-returns-null", "CreateShapeFromData returned nullptr", cj); return; }
+	NifSegmentationInfo inf;
+	inf.ssfFile = "Meshes\\test.ssf";
+	NifSegmentInfo s0, s1;
+	s0.partID = 0;
+	s1.partID = 1;
+	NifSubSegmentInfo sub;
+	sub.partID = 2;
+	sub.userSlotID = 31;
+	sub.material = 0x1001u;
+	s1.subs.push_back(sub);
+	inf.segs.push_back(s0);
+	inf.segs.push_back(s1);
+	std::vector<int> labels((size_t) T);
+	std::map<std::array<uint16_t, 3>, int> want;
+	for (int i = 0; i < T; i++) { labels[(size_t) i] = i % 3; want[{tris[(size_t) i].p1, tris[(size_t) i].p2, tris[(size_t) i].p3}] = i % 3; }
+	st.add("transitions", 2);
+	NifFile::SetShapeSegments(shape, inf, labels);
+	std::vector<Triangle> cur;
+	shape->GetTriangles(cur);
+	NifSegmentationInfo got;
+	std::vector<int> parts;
+	if (!NifFile::GetShapeSegments(shape, got, parts)) { st.violation("FO4:segments-big:get-fails", vf::strf("GetShapeSegments returns false for %d triangles", T), cj); return; }
+	if ((int) cur.size() != T || (int) parts.size() != T) { st.violation("FO4:segments-big:count", vf::strf("%d triangles set, %zu stored, %zu labels returned", T, cur.size(), parts.size()), cj); return; }
+	std::set<std::array<uint16_t, 3>> seen;
+	long wrong = 0, foreign = 0;
+	for (int i = 0; i < T; i++) {
+		std::array<uint16_t, 3> k = {cur[(size_t) i].p1, cur[(size_t) i].p2, cur[(size_t) i].p3};
+		auto it = want.find(k);
+		if (it == want.end()) { foreign++; continue; }
+		seen.insert(k);
+		if (parts[(size_t) i] != it->second) wrong++;
+	}
+	if (foreign || (int) seen.size() != T)
+		st.violation("FO4:segments-big:triangles-not-permutation", vf::strf("%d triangles set: %ld stored triangles are not among them, %zu of the original ones are still there", T, foreign, seen.size()), cj);
+	else if (wrong)
+		st.violation("FO4:segments-big:label-changed", vf::strf("%d triangles set: %ld come back with another label", T, wrong), cj);
+}
+
 int main(int argc, char** argv) {
 	A = vf::parse_args(argc, argv);
 	Stats top;
 	if (!A.replay.empty()) {
 		J r = J::parse(vf::read_file(A.replay));
+		if (r["case"].has("kind") && r["case"]["kind"].str() == "segments-big") {
+			const int T = (int) r["case"]["T"].i64();
+			vf::CrashInfo ci = vf::run_isolated(A.rundir, A.repo, 300, [&]() {
+				Stats st;
+				run_big_segments(T, st);
+				st.flush(stdout);
+				return 0;
+			});
+			if (!ci.cls.empty()) top.violation("FO4:segments-big:crash:" + ci.key(), "child died (" + ci.cls + " in " + ci.frame + ")", r["case"]);
+			vf::finish(top);
+			return 0;
+		}
 		State s = state_from_json(r["case"]);
 		vf::CrashInfo ci = vf::run_isolated(A.rundir, A.repo, 300, [&]() {
 			Stats st;
@@ -795,6 +868,16 @@ int main(int argc, char** argv) {
 		return found < 0 ? std::string() : std::to_string(found);
 	};
 	vf::run_pool(units.size(), pc, unit_fn, crash_fn, top);
+	if (only.empty() || only == "segments") {
+		// the four big shapes, each in its own forked worker
+		static const int BIG[4] = {65535, 65536, 65537, 70000};
+		vf::run_pool(4, pc, [&](size_t u, const std::vector<std::string>&, long, Stats& st) { run_big_segments(BIG[u], st); },
+					 [&](size_t u, const vf::CrashInfo& ci, const std::string&, Stats& parent) -> std::string {
+						 parent.violation("FO4:segments-big:crash:" + ci.key(), vf::strf("worker died (%s in %s) on the shape with %d triangles", ci.cls.c_str(), ci.frame.c_str(), BIG[u]), J::obj().set("kind", "segments-big").set("T", BIG[u]));
+						 return "";
+					 },
+					 top);
+	}
 
 	top.set_info("rule",
 				 vf::strf("explicit enumeration, no sampling. segments: BSSubIndexTriShape %s, fixed mesh of %d vertices, T = 0..%d (first T triangles of a fixed pool of 5 pairwise "
@@ -804,7 +887,8 @@ int main(int argc, char** argv) {
 						  "UpdateSkinPartitions. per state: set -> get -> save+load -> get, then for each of the %d vertices: rebuild, set, delete vertex -> get -> save+load -> get. "
 						  "reductions (both checked, not assumed): a state with permuted ids whose saved file is byte-identical to that of the identity-numbered state with model-translated "
 						  "labels runs set -> get only; a Save+Load whose bytes equal an earlier file that reloaded faithfully is not repeated. "
-						  "states = distinct (version, info, label list) by value; transitions = operations executed on the implementation whose result was compared with the model",
+						  "states = distinct (version, info, label list) by value; transitions = operations executed on the implementation whose result was compared with the model. "
+						  "boundary: FO4 shapes with 65535 / 65536 / 65537 / 70000 pairwise distinct triangles, three ids cycling, set -> get",
 						  thorough ? "FO4 and FO76" : "FO4", NV, Tmax, full_n, full_n, thorough ? " (FO76: identity numbering only, T <= 3)" : "", thorough ? "SK, SSE, FO3" : "SK, SSE", NV));
 	top.set_info("tmax", Tmax);
 	top.set_info("full_permutations_up_to_n", full_n);
